@@ -16,10 +16,12 @@ def run(tier, seed):
         for N in Ns:
             for dense in (True, False):
                 units.append(dict(cell=list(cell), N=N, entropy=130 + seed, dense=dense))
+            # final time off the step grid (restart points still on it)
+            units.append(dict(cell=list(cell), N=N - 2, entropy=130 + seed, dense=False, tail=0.25))
     chk.count('work_units', len(units))
     for part in pmap(lm.c13_unit, units):
         chk.merge(part)
-    chk.expect('executions', len(units) * 2 ** (min(Ns) - 1))
+    chk.expect('executions', len(units) * 2 ** (min(Ns) - 3))
     chk.assumptions = ["restart points on the dyadic step grid; same Brownian object across chunks"]
     return chk
 
